@@ -62,6 +62,13 @@ def make_cassette(rnd, nfiles=None, big=False, dirbyte=None):
         n = 65535
         d = [dirbyte if dirbyte is not None else rnd.randrange(0x41, 0x5B)] * n
         fs = [dict(fam_cas.gen_file(rnd, [10], allow_empty=False), data=hexs(d)) for _ in range(3)]
+        if dirbyte is not None:
+            # shorten the first file until the byte at the first directory offset of a disk image (78848) is `dirbyte`
+            for cut in range(0, 12):
+                fs[0]["data"] = hexs(d[:n - cut])
+                k, buf = fam_cas.impl_write(fs)
+                if buf[78848] == dirbyte:
+                    break
     k, buf = fam_cas.impl_write(fs)
     return fs, buf
 
@@ -241,6 +248,11 @@ PROGRAMS = [
 ]
 
 
+def sized_program(n, org=0x3000):
+    """an accepted, named program of exactly n bytes (n >= 4)"""
+    return (["        NAM     SIZED", "        ORG     $%04X" % org, "START   LDA     #1", "        RMB     %d" % (n - 3), "        RTS"], "SIZED")
+
+
 def asm_namespace(src, to_bin=None, to_cas=None, to_dsk=None, name=None, append=False):
     return argparse.Namespace(filename=src, symbols=False, print=False, to_bin=to_bin, to_cas=to_cas, to_dsk=to_dsk,
                               name=name, append=append, width=100)
@@ -258,10 +270,21 @@ def run_asm_matrix(run, quick=True, sub_every=0, props=("C10", "C11")):
                     cells.append(([sw], append, tk))
     for _ in range(6 if quick else 40):
         cells.append((rnd.sample(["to_bin", "to_cas", "to_dsk"], rnd.choice([2, 3])), rnd.random() < 0.5, rnd.choice(kinds)))
+    sized = []
+    if "C11" in props:
+        # program sizes whose disk postamble straddles a granule boundary (first six boundaries of the fill order), and 255-block boundaries
+        for gran in range(1, 7):
+            for r in ((1, 3) if quick else (1, 2, 3, 4)):
+                sized.append(gran * 2304 - 5 - r)
+        sized += [254, 255, 256, 510, 700] if quick else [254, 255, 256, 509, 510, 511, 700, 2400, 65535]
+        for n in sized:
+            cells.append((["to_bin", "to_cas", "to_dsk"] if n % 2 else ["to_dsk"], False, "absent"))
     reqs, ctx = [], []
     for ci, (sws, append, tk) in enumerate(cells):
         prog, pname = (PROGRAMS[ci % 4] if ci < 3 * 2 * len(kinds) else PROGRAMS[rnd.randrange(len(PROGRAMS))]) if rnd.random() < 0.9 else (
             [l.rstrip("\n") for l in next(iter(gen_asm.random_programs(rnd, 1, 0.97)))["lines"]], None)
+        if ci >= len(cells) - len(sized):
+            prog, pname = sized_program(sized[ci - (len(cells) - len(sized))])
         argname = rnd.choice([None, "ARGNAME", "x"])
         wd = WorkDir()
         try:
